@@ -349,7 +349,7 @@ func checkC02() fw.Check {
 			reps := 2
 			if tier == "thorough" {
 				wins, bases = windowsThorough, basesThorough
-				reps = 5
+				reps = 12
 			}
 			var cases []fw.Case
 			for _, v := range refmatch.Variants {
